@@ -440,6 +440,18 @@ func runC15(c *core.Ctx) {
 							c.Count("addchannel.exotic-refused", 1)
 						} else if err != nil {
 							c.Violate("C15|"+cfg.Name+"|addchannel-refused", "%v", err)
+						} else if dup := func() bool {
+							for _, k := range up {
+								if k.custom && k.freq == f && k.min == min && k.max == max {
+									return true
+								}
+							}
+							return false
+						}(); dup && len(b.GetUplinkChannelIndices()) == len(up) {
+							// the plan has exactly this custom channel already and did not grow: an AddChannel that is
+							// idempotent for exact duplicates (the library appends a second entry; both keep the plan
+							// consistent, which is all the property asks)
+							c.Count("addchannel.duplicate-folded", 1)
 						} else {
 							// a placeholder slot (frequency 0) starts out disabled, everything else enabled
 							up = append(up, chModel{f, min, max, f != 0, true})
